@@ -79,17 +79,33 @@ def same_state(a, b):
     return len(a) == len(b) and all(x.shape == y.shape and np.array_equal(x, y, equal_nan=True) for x, y in zip(a, b))
 
 
+def plain(v):
+    """value of a hyperparameter irrespective of the numeric type that carries it: np.int64(3) and 3 are the same value (the
+    workload hands integer hyperparameters over as NumPy integers in one estimator out of six)"""
+    if isinstance(v, (bool, np.bool_)):
+        return bool(v)
+    if isinstance(v, np.integer):
+        return int(v)
+    if isinstance(v, np.floating):
+        return float(v)
+    if isinstance(v, dict):
+        return {k: plain(x) for k, x in v.items()}
+    if isinstance(v, (list, tuple)):
+        return type(v)(plain(x) for x in v)
+    return v
+
+
 def params_snapshot(est):
     p = est.get_params()
-    return {k: (id(v), repr(v) if not isinstance(v, np.ndarray) else digest(v)) for k, v in p.items()}
+    return {k: (id(v), repr(plain(v)) if not isinstance(v, np.ndarray) else digest(v)) for k, v in p.items()}
 
 
 def gem_value(v):
     if hasattr(v, "__dict__") and type(v).__module__.startswith("gemclus"):
-        return (type(v).__name__, sorted((k, repr(x)) for k, x in vars(v).items()))
+        return (type(v).__name__, sorted((k, repr(plain(x))) for k, x in vars(v).items()))
     if isinstance(v, np.ndarray):
         return digest(v)
-    return repr(v)
+    return repr(plain(v))
 
 
 def run_case(case, ctx, st):
@@ -298,8 +314,12 @@ def run_case(case, ctx, st):
                     fitted_on = (X2, y2)
             est.set_params(**{key: old})
         elif op == "clone":
-            c = clone(est)
-            del c
+            try:
+                c = clone(est)
+                del c
+            except Exception as e:
+                ctx.violation("round-trip", f"clone-raises/{name}", observed={"exc": repr(e)[:300], "params": params, "ops": ops}, expected="a clone")
+                return
         elif op == "crash_fit":
             if name != "Kauri":
                 st.tap.fail_at_step = int(rng.integers(0, 4))
@@ -365,7 +385,12 @@ def run_case(case, ctx, st):
         # consume the global NumPy generator between fits: nothing may depend on it when random_state is an integer
         np.random.seed(int(rng.integers(0, 2 ** 31 - 1)))
         np.random.random(int(rng.integers(1, 50)))
-    c = clone(est)
+    try:
+        c = clone(est)
+    except Exception as e:
+        # scikit-learn's clone refuses an estimator whose constructor does not store its arguments untouched
+        ctx.violation("round-trip", f"clone-raises/{name}", observed={"exc": repr(e)[:300], "params": params, "ops": ops}, expected="a clone")
+        return
     ctx.count("clone_roundtrips")
     pa, pb = est.get_params(), c.get_params()
     if sorted(pa) != sorted(pb) or any(gem_value(pa[k]) != gem_value(pb[k]) for k in pa):
